@@ -89,6 +89,10 @@ def gen_seq(rng, setlike, small=False, bigmult=False):
     if bigmult and not setlike and rng.random() < 0.06:      # multiplicities around the 255/256 boundary of the compact count encoding
         l = [rng.randrange(3)] * rng.choice([254, 255, 256, 257, 300]) + [rng.randrange(6) for _ in range(rng.randint(0, 3))]
         rng.shuffle(l); return ('q', l)
+    if not small and rng.random() < 0.025:      # a LONG collection: more than 255 distinct elements / script entries / change-list entries
+        n = rng.choice([60, 130, 260, 300, 600]) if (setlike or bigmult) else rng.choice([60, 130, 260, 280])      # ordered lists: the Peano-nat model is O(n*m)
+        if setlike: return ('q', sorted(rng.sample(range(5000), n)))
+        return ('q', [rng.randrange(3000) for _ in range(n)] if rng.random() < 0.7 else [rng.randrange(6) for _ in range(n)])
     n = rng.choice([0, 1, 2, 3, 5] if small else [0, 0, 1, 2, 3, 5, 9, 14, 20])
     if setlike:      # a set has no order: canonical (sorted) form, like maps
         return ('q', sorted(rng.sample(range(30), min(n, 30))))
@@ -139,6 +143,15 @@ def mutate_field(rng, f, v, mode):
         if s == 'R' and f.sub.kind == 'S': return mutate_val(rng, f.sub, v, 'orderonly')
         return v
     # any
+    if s == 'U' and f.c < 2 and v[1] and rng.random() < 0.6:     # an element held about 256 times: remove all / most of its copies, or add as many again
+        from collections import Counter
+        x, cx = Counter(v[1]).most_common(1)[0]
+        if cx >= 254:
+            l = list(v[1]); k = rng.choice([cx, cx, 255, 256, 257, cx - 1])
+            if rng.random() < 0.65:
+                for _ in range(min(k, cx)): l.remove(x)
+            else: l += [x] * k
+            return ('q', l)
     if s == 'U' and f.c < 2 and rng.random() < 0.05:        # a multiplicity delta of exactly 255 / 256 / 257
         l = list(v[1]); x = l[0] if l else 1
         k = rng.choice([255, 256, 257])
@@ -146,6 +159,19 @@ def mutate_field(rng, f, v, mode):
             for _ in range(k): l.remove(x)
         else: l += [x] * k
         return ('q', l)
+    if s in ('L', 'U') and len(v[1]) >= 60 and rng.random() < 0.8:      # bulk edits of a long collection: c elements go, c fresh ones come
+        l = list(v[1]); setl = (s == 'U' and f.c >= 2)
+        c = min(len(l), rng.choice([1, 16, 17, 128, 255, 256, 257, 300]))
+        kinds = rng.choice([('rem',), ('ins',), ('rem', 'ins'), ('rem', 'ins'), ('shift',)])
+        if 'shift' in kinds and not setl: k = rng.randint(1, 5); l = l[k:] + l[:k]
+        if 'rem' in kinds:
+            for i in sorted(rng.sample(range(len(l)), c), reverse=True): del l[i]
+        if 'ins' in kinds:
+            fresh = [x for x in rng.sample(range(5000, 9000), c)]
+            if setl: l += fresh
+            else:
+                for x in fresh: l.insert(rng.randint(0, len(l)), x)
+        return ('q', sorted(set(l)) if setl else l)
     if s in ('L', 'U') and rng.random() < 0.7:
         l = list(v[1])
         for _ in range(rng.randint(1, 3)):
